@@ -30,6 +30,8 @@ pub trait Hooks: Send + Sync {
     fn chan_send(&self, ch: usize) -> Result<(), ()>;
     /// Blocks (in simulation) until a message is available; `Err` if disconnected and empty.
     fn chan_recv(&self, ch: usize) -> Result<(), ()>;
+    /// A non-blocking receive took one message.
+    fn chan_took(&self, ch: usize);
     fn chan_drop_sender(&self, ch: usize);
     fn chan_drop_receiver(&self, ch: usize);
     fn rng_u64(&self) -> u64;
@@ -411,7 +413,13 @@ pub mod std_shim {
                 }
                 pub fn try_recv(&self) -> Result<T, TryRecvError> {
                     vh::yield_point("chan.try_recv", self.ch);
-                    self.rx.try_recv()
+                    let r = self.rx.try_recv();
+                    if r.is_ok() {
+                        if let Some(h) = vh::hooks() {
+                            h.chan_took(self.ch);
+                        }
+                    }
+                    r
                 }
                 pub fn iter(&self) -> Iter<'_, T> {
                     Iter(self)
